@@ -113,7 +113,8 @@ def _wrap_witness(f, fb, lin, block):
     import itertools
     if not _inevitable(f, block):
         return None
-    facts = list(fb.ineqs_at(block))
+    taut = fb.and_facts()                      # unconditional truths about masked values: they cannot constrain the parameters
+    facts = [g for g in fb.ineqs_at(block) if not any(g is t_ for t_ in taut)]
     eqs = list(fb.A.facts_at(block))
     syms = set(s_ for s_ in lin if s_ != 1)
     for g in facts + eqs:
